@@ -331,7 +331,7 @@ func newEventFromUntrustedJSONV1(eventJSON []byte, roomVersion IRoomVersion) (PD
 		return nil, fmt.Errorf("gomatrixserverlib NewEventFromUntrustedJSON: event is not a JSON object")
 	}
 
-	if err := checkID(res.eventFields.RoomID, "room", '!'); err != nil {
+	if err := notOnlyTooManyBytes(checkID(res.eventFields.RoomID, "room", '!')); err != nil {
 		return nil, err
 	}
 	if err := checkValidRoomID(res.eventFields.RoomID); err != nil {
@@ -388,7 +388,7 @@ func newEventFromTrustedJSONV1(eventJSON []byte, redacted bool, roomVersion IRoo
 		return nil, err
 	}
 
-	if err := checkID(res.eventFields.RoomID, "room", '!'); err != nil {
+	if err := notOnlyTooManyBytes(checkID(res.eventFields.RoomID, "room", '!')); err != nil {
 		return nil, fmt.Errorf("RoomID is invalid: %w", err)
 	}
 	if err := checkValidRoomID(res.eventFields.RoomID); err != nil {
@@ -407,7 +407,7 @@ func newEventFromTrustedJSONWithEventIDV1(eventID string, eventJSON []byte, reda
 		return nil, err
 	}
 
-	if err := checkID(res.eventFields.RoomID, "room", '!'); err != nil {
+	if err := notOnlyTooManyBytes(checkID(res.eventFields.RoomID, "room", '!')); err != nil {
 		return nil, err
 	}
 	if err := checkValidRoomID(res.eventFields.RoomID); err != nil {
